@@ -13,13 +13,13 @@ echo "== with change: build + tests"
 cmake --build _build >/dev/null 2>&1 || { echo "BUILD FAILED with change"; exit 1; }
 _build/test/foonathan_memory_test | tail -3 | head -1
 build_demo
-( cd _seed && timeout 60 ./demo.bin >/tmp/seed_demo_with.txt 2>&1 ); W=$?
-echo "demo WITH change: exit=$W: $(tail -1 /tmp/seed_demo_with.txt | cut -c1-150)"
+( cd _seed && timeout 60 ./demo.bin >$WT/_seed/.with.txt 2>&1 ); W=$?
+echo "demo WITH change: exit=$W: $(tail -1 $WT/_seed/.with.txt | cut -c1-150)"
 git diff -- include src > _seed/.verify.patch; git apply -R _seed/.verify.patch  # (git stash is shared between worktrees)
 cmake --build _build >/dev/null 2>&1
 build_demo
-( cd _seed && timeout 60 ./demo.bin >/tmp/seed_demo_without.txt 2>&1 ); O=$?
-echo "demo WITHOUT change: exit=$O: $(tail -1 /tmp/seed_demo_without.txt | cut -c1-150)"
+( cd _seed && timeout 60 ./demo.bin >$WT/_seed/.without.txt 2>&1 ); O=$?
+echo "demo WITHOUT change: exit=$O: $(tail -1 $WT/_seed/.without.txt | cut -c1-150)"
 git apply _seed/.verify.patch; rm -f _seed/.verify.patch
 rm -f _seed/demo.bin
 if [ $W -ne 0 ] && [ $O -eq 0 ]; then echo "SEED-OK"; else echo "SEED-BAD"; fi
